@@ -18,6 +18,7 @@
    (see the check's evidence), which is how the defect repaired by bbf0063 was found. *)
 From Coq Require Import List Arith NArith ZArith Bool.
 From EV Require Import QConc QConcProofs QConcWait QConcWake QConcFuel.
+From EV Require GenQFacts.
 From EV.gen Require GenQ GenQConc.
 Import ListNotations.
 
@@ -35,7 +36,7 @@ Theorem C07_wait_predicate :
   forall list_empty ec nc,
     GenQ.can_process list_empty ec nc = true <-> (GenQ.empty_queue list_empty ec = false /\ nc = 0%Z).
 Proof.
-  intros le ec nc. unfold GenQ.can_process, GenQ.can_notify. rewrite andb_true_iff, negb_true_iff, Z.eqb_eq. tauto.
+  intros le ec nc. rewrite GenQFacts.can_process_spec, GenQFacts.empty_queue_spec. rewrite andb_true_iff, negb_true_iff, Z.eqb_eq. tauto.
 Qed.
 Print Assumptions C07_wait_predicate.
 
